@@ -752,6 +752,89 @@ func checkChain(r *vk.Run, c ChainCase) *vk.Fail {
 	return nil
 }
 
+// ---- part B3: a chain after a call that failed and was forgiven ---------------------------------------
+
+// AfterCase: a template function whose body fails on an unknown identifier is called inside a condition; whether that
+// failure is forgiven there is not stated (the render may fail). If the render goes on, the call has left nothing
+// behind: a variable named like the function's PARAMETER tests as it did before the call, in all five sites, and a
+// later else-if of the same chain reads the variable, not the argument.
+type AfterCase struct {
+	Val   int `json:"val"`   // index into afterVals: the variable's value
+	Arg   int `json:"arg"`   // index into afterVals: the argument bound to the parameter of the same name
+	Body  int `json:"body"`  // index into afterBodies
+	Use   int `json:"use"`   // index into afterUses: how the call stands in the condition
+	Place int `json:"place"` // 0 top, 1 loop body x2, 2 function body called twice
+}
+
+var afterVals = []struct {
+	spell  string
+	truthy bool
+}{{`""`, false}, {"false", false}, {"nil", false}, {`"x"`, true}, {"0", true}, {"true", true}, {"[]", true}}
+
+var afterBodies = []string{"return v + missing", "return missing.X", "return v > missing", "let q = missing\nreturn q", "return [v, missing]"}
+
+var afterUses = []string{"ff(ARG)", "!ff(ARG)", "ff(ARG) == 1", "ff(ARG) && true", "false || ff(ARG)", "!!ff(ARG)"}
+
+func checkAfter(r *vk.Run, c AfterCase) *vk.Fail {
+	defer r.Watch("after", c)()
+	v, a := afterVals[c.Val], afterVals[c.Arg]
+	probe := `<%= if (v) { %>T<% } else { %>F<% } %>,<%= !v %>,<%= !!v %>,<%= if (v && true) { %>T<% } else { %>F<% } %>,<%= if (v || false) { %>T<% } else { %>F<% } %>`
+	use := strings.ReplaceAll(afterUses[c.Use], "ARG", a.spell)
+	mid := probe + `#<%= if (` + use + `) { %>t<% } else { %>f<% } %>#` + probe +
+		`#<%= if (` + use + `) { %>A<% } else if (v) { %>B<% } else { %>C<% } %>#` + probe
+	src := `<% let v = ` + v.spell + ` %><% let ff = fn(v) { ` + afterBodies[c.Body] + ` } %>`
+	reps := 1
+	switch c.Place {
+	case 1:
+		src += `<%= for (i) in [1, 2] { %>` + mid + `|<% } %>`
+		reps = 2
+	case 2:
+		src += `<% let g = fn() { %>` + mid + `|<% } %><%= g() %><%= g() %>`
+		reps = 2
+	default:
+		src += mid + "|"
+	}
+	one := "F,true,false,F,F"
+	if v.truthy {
+		one = "T,false,true,T,T"
+	}
+	res := vk.Safe(func() (string, error) { return plush.Render(src, plush.NewContext()) })
+	b, _ := json.Marshal(c)
+	r.Count(string(b), "after a forgiven failing call")
+	r.Sample(func() interface{} { return map[string]interface{}{"template": src, "each probe must read": one} })
+	if res.Panicked() {
+		return &vk.Fail{Kind: "after", Case: c, Msg: fmt.Sprintf("%s: %s", src, res)}
+	}
+	if res.Err != nil {
+		r.Class("after: the failing call fails the render")
+		return nil
+	}
+	passes := strings.Split(strings.TrimSuffix(res.Out, "|"), "|")
+	if len(passes) != reps {
+		return &vk.Fail{Kind: "after", Case: c, Msg: fmt.Sprintf("%s gave %q: %d passes expected", src, res.Out, reps)}
+	}
+	for _, p := range passes {
+		f := strings.Split(p, "#")
+		if len(f) != 5 {
+			return &vk.Fail{Kind: "after", Case: c, Msg: fmt.Sprintf("%s gave %q", src, res.Out)}
+		}
+		for _, i := range []int{0, 2, 4} {
+			if f[i] != one {
+				return &vk.Fail{Kind: "after", Case: c, Msg: fmt.Sprintf("%s gave %q: probe %d of the variable v = %s reads %q, want %q (the same before and after the call)", src, res.Out, i/2+1, v.spell, f[i], one)}
+			}
+		}
+		// the chain: A if the condition held; otherwise B exactly when v is truthy
+		wantRest := "C"
+		if v.truthy {
+			wantRest = "B"
+		}
+		if f[3] != "A" && f[3] != wantRest {
+			return &vk.Fail{Kind: "after", Case: c, Msg: fmt.Sprintf("%s gave %q: the chain rendered %q, want A or %s (its else-if tests the variable v = %s)", src, res.Out, f[3], wantRest, v.spell)}
+		}
+	}
+	return nil
+}
+
 // ---- part B2: one chain, truth assignments that change between evaluations ----------------------
 
 // RowsCase: ONE chain of k branches whose conditions read the k values of a row; the chain is evaluated once per row -
@@ -1093,7 +1176,7 @@ func checkNestSrc(r *vk.Run, prog []model.Node, src string, c NestCase) *vk.Fail
 	return nil
 }
 
-const rule = "(A, exhaustive) 122 value kinds (nil, bools, nil slices / maps / funcs / chans (truthy: not nil pointers), strings incl. \"false\"/\"0\"/\"nil\"/newline/NUL, trusted HTML, typed nil pointers incl. nil pointers to pointers, to iterators and stored through an interface type, non-nil pointers to zero values and to nil pointers, values that PRINT as nothing (Stringer / HTMLer / error with empty text: truthy, they are not the empty string), unknown identifier, nil context value, every numeric width at 0, NaN, -0, complex, uintptr, empty and non-empty slices/arrays/maps/structs, func, iterator, time, results of helpers with 16 result signatures; 5 kinds the statement is silent about - empty values of other string types, nil unsafe.Pointer - are checked for uniformity only, against the plain if) x 61 test positions (if, else-if, second and fifth else-if, !, !!, !!!, !(!v), parenthesised, &&/|| on either side, v && v, v || v, three-operand and mixed ! && || forms, emitted ! !! && ||, inside for / function / block helper / contentFor and their combinations, inside the then / else / else-if block of another chain, returned from a function, a chain written in one tag, silent if, compact and multi-line spellings, five sequences in which a name is first tested while unknown and then bound, five positions where the same statement has forgiven another unknown identifier before / after / on every pass of a loop, under 20 levels of else / then blocks) x 14 ways the value reaches the site (variable, variables named like keyword prefixes - nilx falsey iffy elsewhere -, literal, helper call, map index, slice index, struct field, field of an indexed element / of a map element / of a call result, method result, result of a template function): the truth value must be the same everywhere and equal the table in the property; a tested helper call is evaluated exactly once. plus 13 conditions that are arithmetic / concatenation expressions x 6 positions. (A2, exhaustive + random) one set of six test sites evaluated for several values in turn - loop body over a slice of the values (nil elements too), template function called once per value, template function reading an outer variable that is rebound by let / by assignment between the calls, ONE parsed template executed once per value with fresh data (nil and unset too; sites at top level or in a loop), ONE parsed template and ONE context whose value is Set before each execution: every pair (A, B) of the value kinds tested A, B, A (quick: unordered pairs, thorough: ordered), and random sequences of 2-8 kinds. (B, exhaustive) every chain of 1..4 branches x every assignment of 9 condition values x with/without else x 10 placements (top, loop, function, block helper, if in loop, else block, else-if block, a script in one tag assigning a variable, a function returning from the branches, block helper in loop), each condition wrapped in a recording helper: output = block of the first truthy branch, conditions evaluated = exactly the prefix up to it; for 1..3 branches also with empty / output-tag / mixed blocks, with every later condition replaced by a helper that fails when evaluated, and with a bare first condition; chains of 5..12 branches with the first truthy condition at every position. (B2, exhaustive + random) ONE chain evaluated for a sequence of rows of truth assignments (conditions read r[j] or the field r.A of the row, bare or through the recording helper) as loop body / function body / parsed template executed per row: every ordered pair of assignments of 2 branches over 4 values as A, B, A, and random 1..4 branches x 2..6 rows over 10 values. (C, random) nested if/else-if/else chains whose conditions are trees of !, &&, || and parentheses (depth <= 3, only the parentheses the grammar needs) over recording calls, arithmetic and concatenation, inside loops, template functions called twice and block helpers, compared with the reference interpreter incl. the evaluation trace; a quarter of them as one parsed template executed with the data, with flipped data, and with the data again. Non-trivial: every matrix cell, chain and row sequence is (distinct by cell / chain / template)."
+const rule = "(A, exhaustive) 122 value kinds (nil, bools, nil slices / maps / funcs / chans (truthy: not nil pointers), strings incl. \"false\"/\"0\"/\"nil\"/newline/NUL, trusted HTML, typed nil pointers incl. nil pointers to pointers, to iterators and stored through an interface type, non-nil pointers to zero values and to nil pointers, values that PRINT as nothing (Stringer / HTMLer / error with empty text: truthy, they are not the empty string), unknown identifier, nil context value, every numeric width at 0, NaN, -0, complex, uintptr, empty and non-empty slices/arrays/maps/structs, func, iterator, time, results of helpers with 16 result signatures; 5 kinds the statement is silent about - empty values of other string types, nil unsafe.Pointer - are checked for uniformity only, against the plain if) x 61 test positions (if, else-if, second and fifth else-if, !, !!, !!!, !(!v), parenthesised, &&/|| on either side, v && v, v || v, three-operand and mixed ! && || forms, emitted ! !! && ||, inside for / function / block helper / contentFor and their combinations, inside the then / else / else-if block of another chain, returned from a function, a chain written in one tag, silent if, compact and multi-line spellings, five sequences in which a name is first tested while unknown and then bound, five positions where the same statement has forgiven another unknown identifier before / after / on every pass of a loop, under 20 levels of else / then blocks) x 14 ways the value reaches the site (variable, variables named like keyword prefixes - nilx falsey iffy elsewhere -, literal, helper call, map index, slice index, struct field, field of an indexed element / of a map element / of a call result, method result, result of a template function): the truth value must be the same everywhere and equal the table in the property; a tested helper call is evaluated exactly once. plus 13 conditions that are arithmetic / concatenation expressions x 6 positions. (A2, exhaustive + random) one set of six test sites evaluated for several values in turn - loop body over a slice of the values (nil elements too), template function called once per value, template function reading an outer variable that is rebound by let / by assignment between the calls, ONE parsed template executed once per value with fresh data (nil and unset too; sites at top level or in a loop), ONE parsed template and ONE context whose value is Set before each execution: every pair (A, B) of the value kinds tested A, B, A (quick: unordered pairs, thorough: ordered), and random sequences of 2-8 kinds. (B, exhaustive) every chain of 1..4 branches x every assignment of 9 condition values x with/without else x 10 placements (top, loop, function, block helper, if in loop, else block, else-if block, a script in one tag assigning a variable, a function returning from the branches, block helper in loop), each condition wrapped in a recording helper: output = block of the first truthy branch, conditions evaluated = exactly the prefix up to it; for 1..3 branches also with empty / output-tag / mixed blocks, with every later condition replaced by a helper that fails when evaluated, and with a bare first condition; chains of 5..12 branches with the first truthy condition at every position. (B2, exhaustive + random) ONE chain evaluated for a sequence of rows of truth assignments (conditions read r[j] or the field r.A of the row, bare or through the recording helper) as loop body / function body / parsed template executed per row: every ordered pair of assignments of 2 branches over 4 values as A, B, A, and random 1..4 branches x 2..6 rows over 10 values. (B3, exhaustive) a chain and the five test sites after a condition that called a template function whose body fails on an unknown identifier (7 values of a variable x 7 arguments bound to the parameter of the same name x 5 failing bodies x 6 uses x top level / loop / function): the render may fail; if it goes on, every site reads the variable as before the call and the chain's else-if tests the variable. (C, random) nested if/else-if/else chains whose conditions are trees of !, &&, || and parentheses (depth <= 3, only the parentheses the grammar needs) over recording calls, arithmetic and concatenation, inside loops, template functions called twice and block helpers, compared with the reference interpreter incl. the evaluation trace; a quarter of them as one parsed template executed with the data, with flipped data, and with the data again. Non-trivial: every matrix cell, chain and row sequence is (distinct by cell / chain / template)."
 
 func setup(t *testing.T) *vk.Run {
 	r := vk.Start(t, "C07", rule,
@@ -1162,6 +1245,16 @@ func setup(t *testing.T) *vk.Run {
 			return &vk.Fail{Kind: "decode", Msg: "at most four branches"}
 		}
 		return checkRows(r, c)
+	})
+	r.Replayer("after", func(raw json.RawMessage) *vk.Fail {
+		var c AfterCase
+		if f := vk.Decode(raw, &c); f != nil {
+			return f
+		}
+		if c.Val < 0 || c.Val >= len(afterVals) || c.Arg < 0 || c.Arg >= len(afterVals) || c.Body < 0 || c.Body >= len(afterBodies) || c.Use < 0 || c.Use >= len(afterUses) || c.Place < 0 || c.Place > 2 {
+			return &vk.Fail{Kind: "decode", Msg: "index out of range"}
+		}
+		return checkAfter(r, c)
 	})
 	r.Replayer("arith", func(raw json.RawMessage) *vk.Fail {
 		var c map[string]string
@@ -1396,6 +1489,20 @@ func TestProp(t *testing.T) {
 	}
 	r.Subspace("rows: one chain of 2 branches evaluated for the rows A, B, A - every ordered pair of truth assignments over {true, false, \"\", 0} x {loop body, function body, parsed template executed per row} x else/no else x {recording, bare} conditions x {row = slice, row = struct}", int64(len(rowCases)), true)
 	r.Parallel(int64(len(rowCases)), 0, func(i int64) { r.Check(checkRows(r, rowCases[i])) })
+	var afterCases []AfterCase
+	for vi := range afterVals {
+		for ai := range afterVals {
+			for bi := range afterBodies {
+				for ui := range afterUses {
+					for pl := 0; pl < 3; pl++ {
+						afterCases = append(afterCases, AfterCase{Val: vi, Arg: ai, Body: bi, Use: ui, Place: pl})
+					}
+				}
+			}
+		}
+	}
+	r.Subspace("after a forgiven failing call: 7 values of the variable x 7 arguments bound to the same-named parameter x 5 failing bodies x 6 uses of the call in a condition x {top level, loop body, function body}", int64(len(afterCases)), true)
+	r.Parallel(int64(len(afterCases)), 0, func(i int64) { r.Check(checkAfter(r, afterCases[i])) })
 	r.Rapid("rows", r.Pick(1500, 30000), func(t *rapid.T) *vk.Fail {
 		k := rapid.IntRange(1, 4).Draw(t, "branches")
 		field := rapid.Bool().Draw(t, "field")
